@@ -135,7 +135,7 @@ class Program:
                 if fn.params:
                     sm = re.search(r'\{(?:closure|async block|coroutine|async closure)@([^}]*?)(?: \(#\d+\))?\}', fn.params[0][1])
                     if sm:
-                        self.by_span[sm.group(1)] = fn
+                        self.by_span.setdefault(sm.group(1), []).append(fn)
                 continue
             keys = self.keys_for_def(name)
             for k in dict.fromkeys(keys):
@@ -755,7 +755,12 @@ class Interp:
             if c.startswith('{closure@') or c.startswith('{async'):
                 sm = re.search(r'@([^}]*?)(?: \(#\d+\))?\}$', c)
                 if sm and sm.group(1) in self.prog.by_span:
-                    return Closure(c, [], [], self.prog.by_span[sm.group(1)], False)
+                    cands = self.prog.by_span[sm.group(1)]
+                    if len(cands) > 1:
+                        cands = [f for f in cands if frame is not None and f.name.startswith(frame.fn.name + '::{closure#')]
+                    if len(cands) != 1:
+                        raise Inconclusive("ambiguous closure body for " + c)
+                    return Closure(c, [], [], cands[0], False)
                 raise Inconclusive("cannot find body for " + c)
             return FnItem(c)
         # promoted / named constants with MIR bodies
@@ -810,6 +815,9 @@ class Interp:
         if len(cands) == 1:
             return cands[0]
         if len(cands) > 1:
+            own = [f for f in cands if frame is not None and frame.fn.name.startswith(f.name.rsplit('::', 1)[0] + '::')]
+            if len(own) == 1:
+                return own[0]
             ex = [f for f in cands if f.name == c or f.name.endswith('::' + c) or c.endswith('::' + strip_impl(f.name))]
             if len(ex) == 1:
                 return ex[0]
@@ -990,7 +998,7 @@ class Interp:
             if v.concrete:
                 return BV(w, v.sint() if signed else v.v)
             return bv(w, z3.SignExt(w - v.w, v.v) if signed else z3.ZeroExt(w - v.w, v.v))
-        if kind.startswith('PointerCoercion') or kind in ('PtrToPtr', 'Transmute', 'FnPtrToPtr', 'PointerExposeProvenance',
+        if kind.startswith('PointerCoercion') or kind in ('Subtype', 'PtrToPtr', 'Transmute', 'FnPtrToPtr', 'PointerExposeProvenance',
                                                           'PointerWithExposedProvenance'):
             if kind == 'Transmute' and isinstance(v, BV):
                 it = int_type(dst_ty)
@@ -1106,6 +1114,14 @@ class Interp:
         p = strip_generics(path)
         segs = p.split('::')
         # enum variant?  Type::Variant
+        if len(segs) >= 3 and segs[-3] == '__tokio_select_util' and segs[-2] == 'Out':
+            # the output enum tokio::select! declares: one variant `_k` per branch, then `Disabled`
+            gm = re.search(r'::Out::<(.*)>::\w+$', path)
+            n = len(P.split_top(gm.group(1), ',')) if gm else None
+            var = segs[-1]
+            if n is None:
+                raise Inconclusive("select output enum " + path)
+            return EnumV(BV(64, n if var == 'Disabled' else int(var[1:])), {var: vals}, 'Out')
         if len(segs) >= 2:
             tyn, var = segs[-2], segs[-1]
             info = self.enum_info(tyn)
@@ -1131,7 +1147,14 @@ class Interp:
         fn = None
         sm = re.search(r'@([^}]*?)(?: \(#\d+\))?\}$', tag)
         if sm and sm.group(1) in self.prog.by_span:
-            fn = self.prog.by_span[sm.group(1)]
+            cands = self.prog.by_span[sm.group(1)]
+            if len(cands) > 1:
+                # closures produced by a macro share the macro's span: the right one is a child of the current function
+                own = [f for f in cands if f.name.startswith(frame.fn.name + '::{closure#')]
+                if len(own) != 1:
+                    raise Inconclusive("ambiguous closure body for " + tag + " in " + frame.fn.name)
+                cands = own
+            fn = cands[0]
         if fn is None and is_co:
             fn = self.prog.coroutine_body(frame.fn.name)
         if fn is None:
